@@ -92,6 +92,7 @@ def build_storm(env, scale):
         s = cw.session(kem, 1, 1, sid="st%04x" % kem)
         reps = {0x0020: 40000, 0x0010: 6000, 0x0011: 1000, 0x0012: 500}[kem] * scale
         s.call("decap_storm", ikm=g.rbytes(16), threads=16, reps=reps)
+        s.call("decap_storm", ikm=g.rbytes(16), threads=16, reps=max(1, reps // 2), auth=1)
     return cw
 
 
